@@ -165,4 +165,67 @@ def TLocalInv (ring0 : List Nat) (rules0 : List Block) (l : TLocal) : Prop :=
 
 def mkTThread (steps : List TSt) : TTh := { steps := steps, loc := {} }
 
+/-! ## programs as syntax (so that a goroutine can be projected onto its core micro-steps) -/
+
+/-- the operations that run on a published table -/
+inductive TOp where
+  | core (f : St)
+  /-- `atomic.AddUint64(&r.total, 1)` on a ring of `N` slots -/
+  | pick (N : Nat)
+  | ringRead
+  | scanBegin (a : Addr)
+  | scanIter
+  | tableRead
+
+def TOp.sem : TOp → TSt
+  | .core f => liftCore f
+  | .pick N => liftCore (rrFetchAdd N)
+  | .ringRead => Fabio.Model.C06.ringRead
+  | .scanBegin a => Fabio.Model.C06.scanBegin a
+  | .scanIter => Fabio.Model.C06.scanIter
+  | .tableRead => Fabio.Model.C06.tableRead
+
+def TOp.coreStep : TOp → Option St
+  | .core f => some f
+  | .pick N => some (rrFetchAdd N)
+  | _ => none
+
+/-- a goroutine given by its remaining operations -/
+structure STh where
+  ops : List TOp
+  loc : TLocal := {}
+
+/-- the goroutine as a thread of the interleaving semantics -/
+def STh.toT (t : STh) : TTh := { steps := t.ops.map TOp.sem, loc := t.loc }
+
+/-- what the goroutine does to the core state: its core micro-steps, in order, on the core part of its local state -/
+def STh.proj (t : STh) : Th := { steps := t.ops.filterMap TOp.coreStep, loc := t.loc.core }
+
+/-- one whole request on a route with a ring of `N` slots and a target with `n` rule blocks: the atomic pick, the
+read of the slot, the scan of the rule list for the client's address -/
+def requestOps (N n : Nat) (a : Addr) : List TOp :=
+  [.pick N, .ringRead, .scanBegin a] ++ List.replicate (n + 1) .scanIter
+
+def requestThread (N n : Nat) (as : List Addr) : STh := { ops := as.flatMap (requestOps N n) }
+
+/-- a reader of the published table (`Dump`, `String`, the admin API): `k` reads -/
+def readerThread (k : Nat) : STh := { ops := List.replicate k .tableRead }
+
+/-- the remaining operations of a goroutine are well-formed: every pick is immediately followed by the read of its
+slot (`pending` = a pick awaits its read), and nothing else touches the list of picks -/
+def wfFrom : Bool → List TOp → Bool
+  | pending, [] => !pending
+  | false, .pick _ :: rest => wfFrom true rest
+  | true, .ringRead :: rest => wfFrom false rest
+  | false, .scanBegin _ :: rest => wfFrom false rest
+  | false, .scanIter :: rest => wfFrom false rest
+  | false, .tableRead :: rest => wfFrom false rest
+  | _, _ => false
+
+/-- all (index, target) pairs read so far, over all goroutines -/
+def allTargetsT (ts : List TTh) : List (Nat × Nat) := ts.flatMap (fun t => t.loc.targets)
+
+/-- all ring indices handed out so far, over all goroutines -/
+def allPicksT (ts : List TTh) : List Nat := ts.flatMap (fun t => t.loc.core.picks)
+
 end Fabio.Model.C06
